@@ -217,14 +217,33 @@ func sendErrorRule(r *Report, send *ssa.Function) {
 		n++
 		for _, t := range tests {
 			nonNilBlocks = append(nonNilBlocks, t.NonNil)
-			errs, _, okp := returnValuesFrom(t.NonNil, 0)
-			if !okp || len(errs) == 0 {
-				okErr = false
-			}
-			for _, e := range errs {
-				if isNilConst(e) {
-					okErr = false
+			paths, okp := blockPathsE(t.If.Block(), t.NonNil, 4000)
+			nret := 0
+			for _, p := range paths {
+				last := p[len(p)-1]
+				ret, isRet := last.Instrs[len(last.Instrs)-1].(*ssa.Return)
+				if !isRet {
+					continue
 				}
+				nret++
+				for _, v := range retVals(ret, 0) {
+					for _, l := range resolveOnPath(v, p) {
+						// this write's error, a wrapping of it, or a fresh error: not nil and not
+						// the (nil) outcome of an earlier write held in an outer variable
+						mine := false
+						for _, e := range errOf(cc) {
+							if l == e || anyIn(r.W.backSlice(l, flowOpt{Through: map[string]bool{"fmt.Errorf": true}, CallArg: true}), func(x ssa.Value) bool { return x == e }) {
+								mine = true
+							}
+						}
+						if !mine && !isFreshErr(l) {
+							okErr = false
+						}
+					}
+				}
+			}
+			if !okp || nret == 0 {
+				okErr = false
 			}
 		}
 	}
